@@ -17,7 +17,7 @@ Non-trivial = the plain run succeeds and a tag sits on an argument the word insp
         "words that hand back an argument or an element (dup swap over rot nth get unbox drop depth collect-elements, identity >int/>real) and the binary read words (which attach len/big by design) are exempt from the no-tags clause only",
     ],
     max_len: 300,
-    quick_cases: 120_000,
+    quick_cases: 240_000,
     thorough_cases: 3_000_000,
     case,
     systematic: None,
